@@ -198,6 +198,66 @@ pub fn run(a: &Args) {
             real_bad.push(format!("real watcher, first operation after start = {op} in d/: directory d listed {before:?} before and still {now:?} 5 s later (expected {expect:?})"));
         }
     }
+    // the real watcher on a root that is not spelled canonically (through a symlink, with `..`):
+    // notify reports paths under the spelling it was given, and the builder keeps that spelling
+    {
+        use assets_manager::source::{DirEntry, FileContent, FileSystem, Source};
+        #[derive(Clone)]
+        struct Linked {
+            fs: FileSystem,
+            watch: PathBuf,
+        }
+        impl Source for Linked {
+            fn read(&self, id: &str, ext: &str) -> std::io::Result<FileContent> {
+                self.fs.read(id, ext)
+            }
+            fn read_dir(&self, id: &str, f: &mut dyn FnMut(DirEntry)) -> std::io::Result<()> {
+                self.fs.read_dir(id, f)
+            }
+            fn exists(&self, e: DirEntry) -> bool {
+                self.fs.exists(e)
+            }
+            fn make_source(&self) -> Option<Box<dyn Source + Send>> {
+                Some(Box::new(self.clone()))
+            }
+            fn configure_hot_reloading(&self, events: assets_manager::hot_reloading::EventSender) -> Result<(), assets_manager::BoxedError> {
+                let mut b = assets_manager::hot_reloading::FsWatcherBuilder::new()?;
+                b.watch(self.watch.clone())?;
+                b.build(events);
+                Ok(())
+            }
+        }
+        let real = base.join("spelled");
+        let _ = std::fs::create_dir_all(real.join("sub"));
+        let link = base.join("spelled-link");
+        let _ = std::os::unix::fs::symlink(&real, &link);
+        let spellings = [("a symlink to the directory", link.clone()), ("a path with `..`", real.join("sub").join("..")), ("the plain path", real.clone())];
+        for (k, (what, watch)) in spellings.iter().enumerate() {
+            let file = format!("t{k}");
+            std::fs::write(real.join(format!("{file}.txt")), "one").unwrap();
+            std::fs::write(real.join("sub").join(format!("{file}.txt")), "one").unwrap();
+            let Ok(fs) = FileSystem::new(&real) else { continue };
+            let cache = assets_manager::AssetCache::with_source(Linked { fs, watch: watch.clone() });
+            let top = cache.load::<String>(&file).map(|h| h.read().clone()).ok();
+            let sub = cache.load::<String>(&format!("sub.{file}")).map(|h| h.read().clone()).ok();
+            std::thread::sleep(std::time::Duration::from_millis(50));
+            std::fs::write(real.join(format!("{file}.txt")), "two").unwrap();
+            std::fs::write(real.join("sub").join(format!("{file}.txt")), "two").unwrap();
+            let t0 = std::time::Instant::now();
+            let read = |c: &assets_manager::AssetCache<Linked>, id: &str| c.get_cached::<String>(id).map(|h| h.read().clone());
+            while (read(&cache, &file).as_deref() != Some("two") || read(&cache, &format!("sub.{file}")).as_deref() != Some("two"))
+                && t0.elapsed() < std::time::Duration::from_secs(5)
+            {
+                std::thread::sleep(std::time::Duration::from_millis(20));
+                cache.hot_reload();
+            }
+            n += 1;
+            let (t2, s2) = (read(&cache, &file), read(&cache, &format!("sub.{file}")));
+            if top.as_deref() == Some("one") && sub.as_deref() == Some("one") && (t2.as_deref() != Some("two") || s2.as_deref() != Some("two")) {
+                real_bad.push(format!("real watcher on a root given as {what} ({watch:?}): files rewritten from \"one\" to \"two\" still read {t2:?} (top level) and {s2:?} (sub-directory) 5 s later"));
+            }
+        }
+    }
     if !real_bad.is_empty() || !trip_bad.is_empty() {
         let mut f: String = real_bad
             .iter()
